@@ -287,6 +287,15 @@ pub fn run(tier: Tier) -> i32 {
             r.extend(std::iter::repeat(b'E').take(early));
             cases.push(Case { name: format!("CONNECT followed at once by {early} data bytes"), greeting: g.clone(), request: Some(r), cuts: vec![], expect_method_ok: true, expect_tunnel: Some(a4), truncated: false, gap_s: 0 });
         }
+        // the same behind a request that cannot succeed (refusing port, unresolvable name): failure reply only
+        for early in [1usize, 700] {
+            let mut r = req(5, 1, 0, 1, &[127, 0, 0, 1], w.closed_port);
+            r.extend(std::iter::repeat(b'E').take(early));
+            cases.push(Case { name: format!("CONNECT to a refusing port followed at once by {early} data bytes"), greeting: g.clone(), request: Some(r), cuts: vec![], expect_method_ok: true, expect_tunnel: None, truncated: false, gap_s: 0 });
+            let mut r = req(5, 1, 0, 3, &[b"\x13nonexistent.invalid"[0], b'n', b'o', b'n', b'e', b'x', b'i', b's', b't', b'e', b'n', b't', b'.', b'i', b'n', b'v', b'a', b'l', b'i', b'd'], 80);
+            r.extend(std::iter::repeat(b'E').take(early));
+            cases.push(Case { name: format!("CONNECT to an unresolvable name followed at once by {early} data bytes"), greeting: g.clone(), request: Some(r), cuts: vec![], expect_method_ok: true, expect_tunnel: None, truncated: false, gap_s: 0 });
+        }
         // ---- fragmentation of the canonical exchange (greeting and request pipelined): every single cut, byte at a time
         let total = g.len() + good_req.len();
         for cut in 1..total {
